@@ -163,6 +163,22 @@ theorem frame_buildChain (q : Q) (ins outs : List Buf) (r : Q × Chain × List E
   · exact frame_addIndirect _ _ _ _ h
   · exact frame_addDirect _ _ _ _ h
 
+/-- what the tail of `pop_used` does -/
+theorem finishPop_spec (q1 : Q) (idx : Nat) :
+    (finishPop q1 idx).1.lastUsedIdx = (q1.lastUsedIdx + 1) % U16
+      ∧ (finishPop q1 idx).1.out = q1.out.filter (fun c => c.head != idx)
+      ∧ (finishPop q1 idx).1.availIdx = q1.availIdx ∧ (finishPop q1 idx).1.availIdxMem = q1.availIdxMem
+      ∧ (finishPop q1 idx).1.availRing = q1.availRing ∧ (finishPop q1 idx).1.usedIdx = q1.usedIdx
+      ∧ (finishPop q1 idx).1.usedRing = q1.usedRing ∧ (finishPop q1 idx).1.numUsed = q1.numUsed
+      ∧ (finishPop q1 idx).1.freeHead = q1.freeHead ∧ (finishPop q1 idx).1.shadow = q1.shadow
+      ∧ (finishPop q1 idx).1.descTable = q1.descTable ∧ (finishPop q1 idx).1.indirectLists = q1.indirectLists
+      ∧ (finishPop q1 idx).1.n = q1.n ∧ (finishPop q1 idx).1.tables = q1.tables
+      ∧ (finishPop q1 idx).1.shareCtr = q1.shareCtr ∧ (finishPop q1 idx).1.indirect = q1.indirect
+      ∧ (finishPop q1 idx).1.eventIdx = q1.eventIdx ∧ (finishPop q1 idx).1.availFlags = q1.availFlags := by
+  unfold finishPop
+  dsimp only
+  split <;> simp
+
 /-! ### inversion of the top-level operations -/
 
 theorem add_token_inv {q q' : Q} {ins outs : List Buf} {t : Nat} {evs : List Ev}
